@@ -123,7 +123,7 @@ def genstep_obs():
 
 
 def c02(tier, seed):
-    return table_obs(tier) + bittrick_obs() + gen_obs(tier, seed) + genstep_obs() + main_obs()[:1]
+    return table_obs(tier) + bittrick_obs() + gen_obs(tier, seed) + genstep_obs() + main_obs()[:1] + x86onedisk_obs()
 
 
 # ---------------------------------------------------------------- split parity (C17)
@@ -486,6 +486,23 @@ POOL_CLEAN = dict(region='pool_clean_dir', file='cmdline/pool.c', begin='static 
 
 POOL_STRUCT = dict(region='pool_struct', file='cmdline/pool.c', begin='struct snapraid_pool {', include_begin=True, end='struct snapraid_pool* pool_alloc(', max_lines=14, expect_loops=0, raw=True)
 POOL_MAKE_LINK = dict(region='pool_make_link', file='cmdline/pool.c', begin='static void make_link(tommy_hashdyn* poolset', include_begin=True, end='void state_pool(struct snapraid_state* state)', max_lines=110, expect_loops=0, raw=True)
+
+
+def _x86_region(fn):
+    return dict(region='x86_one_%s' % fn, file='raid/x86.c', begin='void raid_%s(int nd, size_t size, void **vv)' % fn, end='return;', end_first_after=True, include_end=True, max_lines=30, expect_loops=1, brace_balance=2,
+                proto='static void region_x86_one_%s(int nd, size_t size, void **vv)' % fn, epilogue='\t}\n\t} /* closes the special case and the function block the region text opened */')
+
+
+def x86onedisk_obs():
+    obs = []
+    for np_ in (3, 4, 5, 6):
+        for var in ('ssse3', 'ssse3ext', 'avx2ext'):
+            fn = 'gen%d_%s' % (np_, var)
+            obs.append(Ob('gen.x86.%s.one_disk' % fn, 'harness/h_x86onedisk.c', 'h_x86_one_disk', inject=[_x86_region(fn)], defs={'NP': np_, 'X86_REGION_FILE': '"region_x86_one_%s.c"' % fn, 'X86_REGION_CALL': 'region_x86_one_%s' % fn},
+                          unwind=10, timeout=600, mem=6, cost=2,
+                          functions=['raid_%s (raid/x86.c): beginning of the function up to the end of the one-data-disk special case (extracted mechanically; the inline assembly that follows is NOT covered)' % fn],
+                          note='every data block, every previous content of the parity buffers, every size 0..8'))
+    return obs
 
 
 def pool_obs():
@@ -1162,7 +1179,7 @@ PROPS['C02'].update(
                 'Whole-function obligations do not scale to large nd (DESIGN.md section 2.2: the verification condition is a XOR-of-table-lookups miter no installed SAT back end decomposes); for larger nd the claim rests on the table lemmas plus the STEP obligations: the mechanically extracted inner loop body of raid_gen3..6_int8 adds A[j][d]*D to accumulator j for EVERY disk index d in 1..250 (symbolic), every data byte and state - the induction over the loop is argued, not machine checked.',
     trusted_base=['spec/gf_spec.h (40 lines, table-free field arithmetic and the documented matrix)', 'include/noasm/config.h for the dispatcher units (repo config.h with HAVE_ASSEMBLY off)'],
     assumptions=[SIMD_NOTE, 'generator obligations enumerate geometry: nd <= 5 (int8) / nd <= 12 (int32/int64), size = 1 or 2 chunks of the implementation (64 bytes through raid_gen); larger nd and sizes are NOT covered by a whole-function obligation; the step obligations cover the loop BODY for all d, the composition over the loop (d = nd-1 .. 1, then disk 0) is an induction done on paper', CBMC_BUG],
-    not_covered=['raid/x86.c, raid/x86z.c (inline assembly)', 'generators at nd > 12 / nd > 5 (int8) as whole functions', 'block sizes beyond two chunks (the outer loop carries no state; argued, not discharged)'])
+    not_covered=['raid/x86.c, raid/x86z.c: the inline assembly (only the plain-C beginning of the gen3..6 functions of x86.c is under contract)', 'generators at nd > 12 / nd > 5 (int8) as whole functions', 'block sizes beyond two chunks (the outer loop carries no state; argued, not discharged)'])
 PROPS['C03'].update(
     explanation='(1) MDS on the real tables: every 1x1 and 2x2 minor of the 6x251 Cauchy and 3x251 power matrices is non-singular for ALL row/column pairs (symbolic indices), every 3x3 minor for ALL column triples of each of the 20 row triples and of the power matrix (thorough tier only: 6-15 min per row triple) - orders 4..6 are NOT discharged (3.8e11 minors; the structural Cauchy argument needs mathematics outside the tool). '
                 '(2) raid_rec dispatch: for EVERY nd <= 251, np <= 6 and sorted failure list (all symbolic), the decoder slot, id[], ip[] (first surviving parities) and the regenerated parity range are exactly as specified, decoders replaced by recording stubs. '
